@@ -19,12 +19,13 @@ import (
 	"verif/internal/model"
 )
 
-const rule = "cases: option maps whose host is drawn from a grammar {IPv4 literal, IPv6 literal in every compression form, embedded IPv4, v4-mapped, with zone, with port, bracketed, leading zeros, surrounding whitespace, hostname, empty, 255 bytes, arbitrary bytes}, port from {canonical decimal, leading zeros, +/- sign, spaces, 0, 65535, 65536, 2^63, 2^64, hex, empty}, caps ending / not ending in 6, keys that are prefixes or extensions of the well-known keys (hos, host1, s1, ii, Host), s / i values of 31/32/33 and 15/16/17 bytes; each map through NewRouterAddress and through model-encode -> ReadRouterAddress. Oracle: own IP-literal recogniser (cross-checked with net/netip; a disagreement between the two oracles makes the case inconclusive and is counted) - Host() succeeds <=> literal and returns that address; HasValidHost <=> Host() ok; IPVersion = family when the host is valid; Port() succeeds <=> optional sign + decimal digits with value 1..65535 and returns the canonical decimal; HasValidPort <=> Port() ok; GetOption(k) = lookup of exactly k; StaticKey / InitializationVector ok <=> 32 / 16 bytes. Non-trivial: host or port option present; distinct by (host, port, caps, path)."
+const rule = "cases: option maps whose host is drawn from a grammar {IPv4 literal, IPv6 literal in every compression form, embedded IPv4, v4-mapped, with zone, with port, bracketed, leading zeros, surrounding whitespace, hostname, empty, 255 bytes, arbitrary bytes}, port from {canonical decimal, leading zeros, +/- sign, spaces, 0, 65535, 65536, 2^63, 2^64, hex, empty}, caps ending / not ending in 6, keys that are prefixes or extensions of the well-known keys (hos, host1, s1, ii, Host), s / i values of 31/32/33 and 15/16/17 bytes; each map through NewRouterAddress, through model-encode -> ReadRouterAddress, and through an encoding whose pairs are not in key order (reversed, rotated). Oracle: own IP-literal recogniser (cross-checked with net/netip; a disagreement between the two oracles makes the case inconclusive and is counted) - Host() succeeds <=> literal and returns that address; HasValidHost <=> Host() ok; IPVersion = family when the host is valid; Port() succeeds <=> optional sign + decimal digits with value 1..65535 and returns the canonical decimal; HasValidPort <=> Port() ok; GetOption(k) = lookup of exactly k; StaticKey / InitializationVector ok <=> 32 / 16 bytes. Non-trivial: host or port option present; distinct by (host, port, caps, path)."
 
 func TestMain(m *testing.M) { ev.Main(m, "C17", rule) }
 
 type Case struct {
 	Opts [][2]string `json:"opts_hex"` // unique keys
+	Rot  int         `json:"rot,omitempty"` // rotation of the reversed wire order
 }
 
 // ---------------------------------------------------------------------------
@@ -344,7 +345,30 @@ func check(c Case, r *ev.Rec) error {
 	if err != nil || len(rem) != 3 {
 		return fmt.Errorf("ReadRouterAddress rejected a well-formed address: %v (rem %d)", err, len(rem))
 	}
-	return checkAddr("parser", a2, c, r)
+	if err := checkAddr("parser", a2, c, r); err != nil {
+		return err
+	}
+	// parser path, options in another wire order (the parser keeps the order it reads;
+	// lookups must not depend on it)
+	if len(pairs) >= 2 {
+		rev := make([]model.Pair, len(pairs))
+		for i, p := range pairs {
+			rev[len(pairs)-1-i] = p
+		}
+		if c.Rot > 0 {
+			k := c.Rot % len(rev)
+			rev = append(append([]model.Pair{}, rev[k:]...), rev[:k]...)
+		}
+		enc := model.RouterAddr{Cost: 5, Style: []byte("NTCP2"), Options: rev}.Encode()
+		a3, rem, err := router_address.ReadRouterAddress(append(enc, 1, 2, 3))
+		if err != nil || len(rem) != 3 {
+			r.Class("unsorted-wire-order:rejected")
+			return nil
+		}
+		r.Class("unsorted-wire-order:parsed")
+		return checkAddr("parser (options not in key order on the wire)", a3, c, r)
+	}
+	return nil
 }
 
 var hosts = []string{
@@ -409,6 +433,7 @@ func genCase(t *rapid.T) Case {
 	if rapid.Bool().Draw(t, "hasi") {
 		add("i", string(model.Fill(rapid.SampledFrom([]int{15, 16, 17, 0, 24}).Draw(t, "ilen"), 8)))
 	}
+	c.Rot = rapid.IntRange(0, 6).Draw(t, "rot")
 	return c
 }
 
